@@ -64,8 +64,12 @@ func (d *sliceTypeFieldTextDecoder) Decode(req *protocol.Request, params param.P
 	var isDefault bool
 	for _, tagInfo := range d.tagInfos {
 		if tagInfo.Skip || tagInfo.Key == jsonTag || tagInfo.Key == fileNameTag {
-			if tagInfo.Key == jsonTag && !tagInfo.Skip { // `json:"-"`: the body is no source for this field
+			if tagInfo.Key == jsonTag {
 				defaultValue = tagInfo.Default
+				if tagInfo.Skip {
+					// `json:"-"`: the body is no source for this field (its default is still its default)
+					continue
+				}
 				found := checkRequireJSON(req, tagInfo)
 				if found {
 					// a json tag that is not 'required' carries no value unless the key
